@@ -37,6 +37,7 @@ type LexResult struct {
 	Toks    []Tok
 	Failed  bool
 	FailAt  int    // character offset where no token can be formed (start of the failing token)
+	FailEnd int    // offset of the character (or end of input) at which the lexeme is known not to be a token; FailAt <= FailEnd
 	Reason  string // closed vocabulary, see DESIGN.md Appendix A
 	Abstain string // non-empty: the reference does not judge this input
 	NChars  int
@@ -90,9 +91,10 @@ func lexMode(src string, closeRun, wide bool) *LexResult {
 		}
 		return -1
 	}
-	fail := func(at int, reason string) *LexResult {
+	failTo := func(at, culprit int, reason string) *LexResult {
 		res.Failed = true
 		res.FailAt = at
+		res.FailEnd = culprit
 		res.Reason = reason
 		return res
 	}
@@ -122,7 +124,7 @@ func lexMode(src string, closeRun, wide bool) *LexResult {
 				res.Toks = append(res.Toks, Tok{Kind: KPunct, Start: start, End: i + 3, Text: "...", Value: "..."})
 				i += 3
 			} else {
-				return fail(start, "lone-dot")
+				return failTo(start, start+2, "lone-dot")
 			}
 		case isNameStart(r):
 			j := i + 1
@@ -139,20 +141,20 @@ func lexMode(src string, closeRun, wide bool) *LexResult {
 			if at(j) == '0' {
 				j++
 				if isDigit(at(j)) {
-					return fail(start, "leading-zero")
+					return failTo(start, j, "leading-zero")
 				}
 			} else if isDigit(at(j)) {
 				for isDigit(at(j)) {
 					j++
 				}
 			} else {
-				return fail(start, "missing-integer-digit")
+				return failTo(start, j, "missing-integer-digit")
 			}
 			isFloat := false
 			if at(j) == '.' {
 				if !isDigit(at(j + 1)) {
 					// "1." or "1.x": IntValue must not be followed by '.', and no fraction can be formed
-					return fail(start, "missing-fraction-digit")
+					return failTo(start, j+1, "missing-fraction-digit")
 				}
 				isFloat = true
 				j++
@@ -167,7 +169,7 @@ func lexMode(src string, closeRun, wide bool) *LexResult {
 				}
 				if !isDigit(at(k)) {
 					// 'e' is a NameStart: the number may not be followed by it, and no exponent can be formed
-					return fail(start, "missing-exponent-digit")
+					return failTo(start, k, "missing-exponent-digit")
 				}
 				isFloat = true
 				for isDigit(at(k)) {
@@ -178,11 +180,11 @@ func lexMode(src string, closeRun, wide bool) *LexResult {
 			// lookahead restriction
 			switch la := at(j); {
 			case isDigit(la):
-				return fail(start, "number-followed-by-digit")
+				return failTo(start, j, "number-followed-by-digit")
 			case la == '.':
-				return fail(start, "number-followed-by-dot")
+				return failTo(start, j, "number-followed-by-dot")
 			case la >= 0 && isNameStart(la):
-				return fail(start, "number-followed-by-name-start")
+				return failTo(start, j, "number-followed-by-name-start")
 			}
 			k := KInt
 			if isFloat {
@@ -213,13 +215,13 @@ func lexMode(src string, closeRun, wide bool) *LexResult {
 						continue
 					}
 					if !isSourceChar(c) {
-						return fail(start, "control-char-in-block")
+						return failTo(start, j, "control-char-in-block")
 					}
 					raw = append(raw, c)
 					j++
 				}
 				if !closed {
-					return fail(start, "unterminated-block")
+					return failTo(start, n, "unterminated-block")
 				}
 				res.Toks = append(res.Toks, Tok{Kind: KBlock, Start: start, End: j, Text: string(rs[start:j]), Value: BlockStringValue(string(raw))})
 				i = j
@@ -239,7 +241,7 @@ func lexMode(src string, closeRun, wide bool) *LexResult {
 					break
 				}
 				if !isSourceChar(c) {
-					return fail(start, "control-char-in-string")
+					return failTo(start, j, "control-char-in-string")
 				}
 				if c == '\\' {
 					e := at(j + 1)
@@ -274,7 +276,7 @@ func lexMode(src string, closeRun, wide bool) *LexResult {
 							case h >= 'A' && h <= 'F':
 								v = v<<4 | (h - 'A' + 10)
 							default:
-								return fail(start, "bad-unicode-escape")
+								return failTo(start, j+2+k, "bad-unicode-escape")
 							}
 						}
 						if v >= 0xD800 && v <= 0xDFFF {
@@ -287,7 +289,7 @@ func lexMode(src string, closeRun, wide bool) *LexResult {
 						val = append(val, v)
 						j += 6
 					default:
-						return fail(start, "bad-escape")
+						return failTo(start, j+1, "bad-escape")
 					}
 					continue
 				}
@@ -295,15 +297,15 @@ func lexMode(src string, closeRun, wide bool) *LexResult {
 				j++
 			}
 			if !closed {
-				return fail(start, "unterminated-string")
+				return failTo(start, j, "unterminated-string")
 			}
 			res.Toks = append(res.Toks, Tok{Kind: KString, Start: start, End: j, Text: string(rs[start:j]), Value: string(val)})
 			i = j
 		default:
 			if !isSourceChar(r) {
-				return fail(start, "control-char-in-source")
+				return failTo(start, start, "control-char-in-source")
 			}
-			return fail(start, "unknown-char")
+			return failTo(start, start, "unknown-char")
 		}
 	}
 	return res
